@@ -219,6 +219,7 @@ class Sim:
         self.kube = fakekube.FakeKube(resources if resources is not None else [fakekube.KEX], **kubekw)
         self.incarnations: list[Incarnation] = []
         self._timers: list[asyncio.TimerHandle] = []
+        self.abandoned_tasks: list[str] = []
 
     def _on_loop_error(self, loop: asyncio.AbstractEventLoop, context: dict[str, Any]) -> None:
         self.loop_errors.append({'t': loop.time(), 'message': context.get('message'),
@@ -312,7 +313,9 @@ class Sim:
                 for t in pending:
                     t.cancel()
                 if pending:
-                    self.loop.run_until_complete(asyncio.gather(*pending, return_exceptions=True))
+                    # NB: always with a timeout: an idle looptime loop without timers blocks in a REAL select() forever.
+                    _, left = self.loop.run_until_complete(asyncio.wait(pending, timeout=60))
+                    self.abandoned_tasks = [t.get_name() for t in left]
             except BaseException:
                 pass
             self.loop.close()
